@@ -74,8 +74,14 @@ func (c *wsConn) tryDelete(s *Subscription) {
 	}
 
 	// Mark for deletion or unsend
-	s.traverse(gcStateDelete, false, func(s *Subscription, state gcState, _ bool) gcState {
+	s.traverse(gcStateDelete, false, func(s *Subscription, state gcState, pending bool) gcState {
 		r := refs[s.RID()]
+
+		// A reference still loading for an event keeps the subscription, but
+		// the client does not know of it yet: it does not keep it sent.
+		if pending && state == gcStateKeep {
+			state = gcStateUnsend
+		}
 
 		// Stop if already kept as sent, or if kept as unsent and not reached
 		// through a subscription that stays sent.
